@@ -1041,7 +1041,14 @@ func parserOrigin(p *core.Program, fn *ssa.Function, v ssa.Value, depth int) str
 			}
 		case *ssa.UnOp:
 			if t.Op == token.MUL {
-				if n, f, _, ok := core.FieldRef(t.X); ok && n != nil && n.Obj().Pkg() != nil && n.Obj().Pkg().Path() == pkgParser {
+				if n, f, base, ok := core.FieldRef(t.X); ok && n != nil && n.Obj().Pkg() != nil && n.Obj().Pkg().Path() == pkgParser {
+					// the field of a function-local copy of a node that was just given a freshly allocated
+					// slice (copy := *node; copy.LabelMatchers = make(...)) is not the node's own slice
+					if al, isLocal := base.(*ssa.Alloc); isLocal && !al.Heap || isLocal && al.Comment != "complit" {
+						if st := reachingStore(fn, al, f, t); st != nil && st.Addr != ssa.Value(al) && freshSlice(st.Val, map[ssa.Value]bool{}) {
+							return
+						}
+					}
 					origin = "parser." + n.Obj().Name() + "." + f
 					return
 				}
